@@ -335,6 +335,75 @@ func ruleC06R2(r *Run, le *LockEngine) {
 			}
 		})
 	}
+	inLiteral := false
+	if reg == nil {
+		// helper → literal: the store sits in a function literal that the helper hands to a lock helper
+		// (c.withLock(func(){ c.replyCh[req.GetRequestID()] = ch })); the key is GetRequestID() of a variable the
+		// literal captured, bound to the helper's parameter, which is the request sendRequest was given
+		allInstrs(send, func(ins ssa.Instruction) {
+			c, ok := ins.(*ssa.Call)
+			if !ok || reg != nil {
+				return
+			}
+			cf := c.Call.StaticCallee()
+			if cf == nil || !p.Analysed(cf) {
+				return
+			}
+			for _, an := range cf.AnonFuncs {
+				mu := findReg(an)
+				if mu == nil {
+					continue
+				}
+				kc, isCall := mu.Key.(*ssa.Call)
+				if !isCall || !kc.Call.IsInvoke() || kc.Call.Method.Name() != "GetRequestID" {
+					continue
+				}
+				var recvV ssa.Value = kc.Call.Value
+				if u, isU := recvV.(*ssa.UnOp); isU && u.Op == token.MUL {
+					recvV = u.X // captured by reference: the literal loads the variable
+				}
+				fv, isFV := recvV.(*ssa.FreeVar)
+				if !isFV {
+					fv, isFV = canonVal(kc.Call.Value).(*ssa.FreeVar)
+				}
+				if !isFV {
+					continue
+				}
+				// the binding of the free variable in the helper
+				allInstrs(cf, func(x ssa.Instruction) {
+					mc, isMC := x.(*ssa.MakeClosure)
+					if !isMC || mc.Fn != ssa.Value(an) {
+						return
+					}
+					for bi, b := range mc.Bindings {
+						if bi >= len(an.FreeVars) || an.FreeVars[bi] != fv {
+							continue
+						}
+						bound := canonVal(b)
+						if al, isAl := b.(*ssa.Alloc); isAl && al.Referrers() != nil {
+							// the spilled parameter: one store, of the parameter itself
+							var stored []ssa.Value
+							for _, ref := range *al.Referrers() {
+								if st, isSt := ref.(*ssa.Store); isSt && st.Addr == ssa.Value(al) {
+									stored = append(stored, st.Val)
+								}
+							}
+							if len(stored) == 1 {
+								bound = canonVal(stored[0])
+							}
+						}
+						for i, prm := range cf.Params {
+							if bound == ssa.Value(prm) && i < len(c.Call.Args) {
+								if _, isReqParam := canonVal(c.Call.Args[i]).(*ssa.Parameter); isReqParam {
+									reg, regSite, regKey, regFn, inLiteral = mu, ins, mu.Key, an, true
+								}
+							}
+						}
+					}
+				})
+			}
+		})
+	}
 	writes := findCalls(send, false, "/wire.EncodingTransport.Write")
 	if reg == nil || len(writes) == 0 {
 		r.Check(name+" registers", false, p.pos(send.Pos()), name, fmt.Sprintf("registration found: %v; transport writes: %d", reg != nil, len(writes)))
@@ -350,6 +419,17 @@ func ruleC06R2(r *Run, le *LockEngine) {
 	okKey := hasLeaf(kl, "call:/message.Request.GetRequestID")
 	r.Check(name+" registers before write", okDom && okKey, posOf(p, reg), name, fmt.Sprintf("registration dominates every write: %v; key derives from [%s]", okDom, joinLeaves(kl)))
 	h := le.HeldAt(reg)
+	if inLiteral {
+		h = le.heldWhereInvoked(regFn)
+		okLock := false
+		for k, m := range h {
+			if m == modeW && strings.HasSuffix(k, ".mu") {
+				okLock = true
+			}
+		}
+		r.Check(name+" registers under lock", okLock, posOf(p, reg), name, fmt.Sprintf("locks held where the registering literal is invoked: %v", h))
+		return
+	}
 	r.Check(name+" registers under lock", h[regFn.Params[0].Name()+".mu"] == modeW, posOf(p, reg), name, fmt.Sprintf("locks held at the registration: %v", h))
 }
 
